@@ -43,7 +43,7 @@ type caseRec struct {
 
 var tPrepare, tClose, tCase, tSnap, tNew vk.Counter
 
-var extGroups = map[string]bool{"header-batch": true, "deep-ahead": true, "restart": true, "paged": true, "pool-witness": true, "pool-kinds": true}
+var extGroups = map[string]bool{"header-batch": true, "deep-ahead": true, "restart": true, "paged": true, "pool-witness": true, "pool-kinds": true, "pool-replay": true, "pool-solvency": true, "pool-evict": true}
 
 type viol struct {
 	what string // stable first part of the key
@@ -160,6 +160,10 @@ func (c *stateCtx) runCase(it item, path string) (o outcome) {
 	}
 	if d.Seq == "poolwit" {
 		c.runPoolWit(d, &o, &base, bad)
+		return
+	}
+	if d.Seq == "poolrep" {
+		c.runPoolRep(d, &o, &base, bad)
 		return
 	}
 	ctl, err := c.control()
@@ -678,7 +682,7 @@ func fatal(a ...any) {
 
 func TestCheck(t *testing.T) {
 	vk.UseT(t)
-	r := vk.Start("C06", "model_checking", 170*time.Second, 24*time.Minute)
+	r := vk.Start("C06", "model_checking", 210*time.Second, 24*time.Minute)
 	defer vk.CleanScratch()
 	debug.SetGCPercent(800) // thousands of short-lived replicas: trade memory for collector time
 	if r.Replay != "" {
@@ -926,7 +930,7 @@ func TestCheck(t *testing.T) {
 			if o.recHdr {
 				hdrRecorded["block:"+o.class]++
 			}
-			if j.it.Want != "" && j.it.Want != o.class {
+			if j.it.Want != "" && j.it.Want != o.class && len(o.viols) == 0 {
 				mismatch[j.it.ID] = fmt.Sprintf("menu intends %s, predicate says %s at %s", j.it.Want, o.class, j.c.label())
 			}
 		} else if o.recHdr {
@@ -1000,9 +1004,28 @@ func TestCheck(t *testing.T) {
 		}
 		famAdded[g] = e
 	}
+	cov3 := prCoverage(its, deliveredBy, naWhy)
+	r3 := map[string]int{}
+	for _, g := range []string{"pool-replay", "pool-solvency", "pool-evict"} {
+		n := 0
+		for _, v := range grpOutcomes[g] {
+			n += v
+		}
+		r3[g+"/cases"], r3[g+"/outcomes"] = n, len(grpOutcomes[g])
+	}
 	r.Finish(map[string]any{
+		"round3_pool_replay_cases":                 r3["pool-replay/cases"],
+		"round3_pool_replay_distinct_outcomes":     r3["pool-replay/outcomes"],
+		"round3_pool_solvency_cases":               r3["pool-solvency/cases"],
+		"round3_pool_solvency_distinct_outcomes":   r3["pool-solvency/outcomes"],
+		"round3_pool_evict_cases":                  r3["pool-evict/cases"],
+		"round3_pool_evict_distinct_outcomes":      r3["pool-evict/outcomes"],
+		"round3_pool_history_specs":                cov3["specs"],
+		"round3_pool_view_comparisons":             cov3["pool_view_comparisons"],
+		"round3_histories_with_disagreeing_views":  cov3["histories_with_disagreeing_pool_views"],
 		"families_added_in_extension":   famAdded,
 		"witness_histories":             pwCoverage(its, deliveredBy, rejectedBy, naWhy),
+		"pool_histories_round3":         cov3,
 		"states":                        len(states),
 		"transitions":                   int(execs.Get()),
 		"traces_validated_against_impl": int(cases.Get()),
@@ -1034,6 +1057,11 @@ func TestCheck(t *testing.T) {
 		"witness histories (pool-witness, pool-kinds): a prelude block (valid, checked by the predicate) deploys the verification contract V and funds the cast; the predicate knows the meaning of every non-standard script of the cast (signature AND one comparison over height / V's storage / a Policy getter / a GAS balance) and evaluates it on the view of the state the block is delivered at; transactions of a block are judged against the state BEFORE the block (X = [revalidating tx, T] is invalid, X = [invalidating tx, T] is valid); verification cost of a non-standard witness is measured once per script on the reference replica and scaled linearly with the base execution fee",
 		"witness histories: a condition that reads a native contract is not used at states where a verification context is created one block before a hardfork (heights N-1..N+1): there the node resolves native methods by the next hardfork's table over the stored (old) offsets and a getter answers for another method - all replicas agree, so it is outside this property; counted in witness_histories.not_applicable",
 		"witness histories: re-relaying T (PoolTx) is an alarm only if PoolTx newly accepts what isolated verification (VerifyTx) on the reference replica with the same chain rejects",
+		"pool histories of round 3 (pool-replay, pool-solvency, pool-evict): programs of pool / relay / block steps built on a reference replica that never pools anything; EVERY block of a history is judged by the predicate on the view of the state it is delivered at and must get the reference replica's verdict and state root on the node under test; a history ends with its first invalid block (the validly signed header of a rejected block stays recorded, nothing can follow at that height - oracle note 'C06, recorded headers' class iii)",
+		"pool histories of round 3: which of a payer's transactions survive a balance cut is NOT asserted (pool policy, C08); only block verdicts, state roots and the unchanged state after a rejection are",
+		"pool histories of round 3: the three views of the pool (GetVerifiedTransactions, ContainsKey/TryGetValue for every history transaction, Count) are compared after every pool/relay step and every accepted block; a disagreement alone is no violation of this property: it starts a probe (block carrying that transaction alone, then the same once more, against a fresh reference replica with the same chain) that is judged by the accepted-invalid-block / verdict-depends-on-mempool-history oracles",
+		"Notary-paid transactions (sender = native Notary, fees from the second signer's deposit): the predicate demands the NotaryAssisted attribute, scope None, exactly two signers, one signature of a node of the latest P2PNotary designation, deposit >= fees of the transaction, attribute fee (NKeys+1) x Policy fee, and deposit >= the sum of the depositor's transactions in a block; the verification cost of the contract witness is measured once on the reference replica and scaled linearly with the base execution fee; deposit expiry (till) plays no role in these histories",
+		"pool-evict/capacity histories run on a node whose own MemPoolSize is 2 (node-local setting) and without the pool content of the state's mode",
 	})
 }
 
